@@ -40,8 +40,8 @@ const char *K_CLOSEOPT = "C24/close-option-not-honoured";
 const char *K_CONNECTCLOSE = "C24/connect-response-close-option-ignored";
 // which listed root cause (if any) explains that the connection was used again after response m
 const char *key_for_reuse(const h9112c::Resp &m) {
-  if (m.features & h9112c::C_CONNECT_OTHER) return K_CONNECTCLOSE;
-  if ((m.features & h9112c::C_CLOSE_OPT) && !(m.features & h9112c::C_CLOSE_OPT_PLAIN)) return K_CLOSEOPT;
+  if ((m.features & h9112c::C_CLOSE_OPT) && !(m.features & h9112c::C_CLOSE_OPT_PLAIN)) return K_CLOSEOPT;   // whatever the method
+  if ((m.features & h9112c::C_CLOSE_OPT) && (m.features & h9112c::C_CONNECT_OTHER)) return K_CONNECTCLOSE;  // (fixed) plain close on a refused CONNECT
   return nullptr;
 }
 
@@ -50,13 +50,15 @@ struct ReqSpec { int cmd; Method kind; bool close_opt; bool expect; std::string 
 // root-cause attribution from what the reference saw of a message
 const char *key_for_features(uint32_t f, const ReqSpec &rq, h9112c::Framing fr, uint64_t cl) {
   using namespace h9112c;
+  // root causes that apply whatever the request method is come first (a CONNECT request reaches them like any other one) ...
   if (f & C_INTERIM_OTHER) return K_INTERIM;
+  if (f & C_TE_LIST) return K_TELIST;
+  if ((f & C_CLOSE_DELIMITED) && (f & C_CONN_FIELD)) return K_NOLEN;
+  // ... then the ones that only name a regression of something already fixed
   if ((f & C_INTERIM_100) && (f & C_INTERIM_FIELDS)) return K_100HDRS;
   if ((f & C_CONNECT_OTHER) && (fr == FR_CHUNKED || fr == FR_CLOSE || (fr == FR_CL && cl > 0))) return K_CONNECTBODY;
-  if (f & C_TE_LIST) return K_TELIST;
   if (f & C_CHUNK_EXT) return K_CHUNKEXT;
   if (f & C_HTAB_FRAMING) return K_HTAB;
-  if ((f & C_CLOSE_DELIMITED) && (f & C_CONN_FIELD)) return K_NOLEN;
   return nullptr;
 }
 const char *key_for_reason(const std::string &r) {
@@ -116,7 +118,7 @@ struct Gen {
       if (f == 1) snprintf(buf, sizeof buf, "%zX", len); else if (f == 2) snprintf(buf, sizeof buf, "000%zx", len); else snprintf(buf, sizeof buf, "%zx", len);
       std::string l = buf;
       uint32_t e = s.below(last ? 40 : 32);
-      if (e >= 1 && e <= 4) { static const char *X[] = {";x", ";x=y", ";x=\"a b\"", ";a;b=c", ";x=\"q\\\"r\""}; if (!avoid(K_CHUNKEXT)) l += X[s.below(5)]; }
+      if (e >= 1 && e <= 4) { static const char *X[] = {";x", ";x=y", ";x=\"a b\"", ";a;b=c", ";x=\"q\\\"r\""}; l += X[s.below(5)]; }
       else if (e == 5) { static const char *X[] = {" ;x", " ", ";", ";x=", "; x", ";x =y", "\t"}; l += X[s.below(7)]; }
       else if (e == 6 && !last) { static const char *X[] = {"+5", "0x5", "-5", "", "g", "5 5", "FFFFFFFFFFFFFFFFF", "7fffffffffffffff", "ffffffffffffffff", " 5"}; l = X[s.below(10)]; }
       return l + eol;
@@ -136,7 +138,7 @@ struct Gen {
     uint32_t r = s.below(16);
     if (r < 6) {   // 100 Continue
       out += "HTTP/1.1 100 Continue" + eol;
-      if (s.chance(1, 4) && !avoid(K_100HDRS)) out += "X-Interim: i" + eol;
+      if (s.chance(1, 4)) out += "X-Interim: i" + eol;
       out += eol;
     } else if (r < 12) {
       if (avoid(K_INTERIM)) return;
@@ -167,20 +169,18 @@ struct Gen {
     // framing
     uint32_t fr = s.below(16); std::string body; std::vector<std::string> fl;
     bool connect_err = rq.kind == h9112c::M_CONNECT && !(st >= 200 && st < 300);
-    if (connect_err && avoid(K_CONNECTBODY)) fr = s.flag() ? 0 : 4;
-    if (fr <= 2) { /* no framing fields: close-delimited (or bodiless) */ body = (st == 204 || st == 304) ? "" : body_bytes();
-      if (connect_err && verif_known(K_CONNECTBODY)) body = ""; }
+    if (fr <= 2) { /* no framing fields: close-delimited (or bodiless) */ body = (st == 204 || st == 304) ? "" : body_bytes(); }
     else if (fr <= 4) { fl.push_back("Content-Length: 0"); }
-    else if (fr <= 8) { body = body_bytes(); if (connect_err && verif_known(K_CONNECTBODY)) body = ""; fl.push_back((s.chance(1, 8) ? "content-length: " : "Content-Length: ") + std::to_string(body.size())); }
+    else if (fr <= 8) { body = body_bytes(); fl.push_back((s.chance(1, 8) ? "content-length: " : "Content-Length: ") + std::to_string(body.size())); }
     else if (fr <= 12) { body = chunked_body(eol); fl.push_back(s.chance(1, 8) ? "transfer-encoding: chunked" : "Transfer-Encoding: chunked"); }
     else if (fr == 13) {
       body = body_bytes(); size_t n = body.size(); std::string N = std::to_string(n);
       switch (s.below(15)) {
         case 0: fl.push_back("Content-Length: " + N); fl.push_back("Content-Length: " + N); break;
-        case 1: if (avoid(K_DUPCL)) { fl.push_back("Content-Length: " + N); break; } fl.push_back("Content-Length: " + N); fl.push_back("Content-Length: " + std::to_string(n + 1 + s.below(40))); if (s.flag()) std::swap(fl[0], fl[1]); break;
+        case 1: fl.push_back("Content-Length: " + N); fl.push_back("Content-Length: " + std::to_string(n + 1 + s.below(40))); if (s.flag()) std::swap(fl[0], fl[1]); break;
         case 2: fl.push_back("Content-Length: " + N + ", " + N); break;
         case 3: fl.push_back("Content-Length: " + N + ", " + std::to_string(n + 1)); break;
-        case 4: if (avoid(K_CLMAL)) { fl.push_back("Content-Length: " + N); break; } fl.push_back("Content-Length: +" + N); break;
+        case 4: fl.push_back("Content-Length: +" + N); break;
         case 5: fl.push_back("Content-Length: -" + N); break;
         case 6: fl.push_back("Content-Length: 0x" + N); break;
         case 7: fl.push_back("Content-Length: " + N + (s.flag() ? " abc" : "abc")); break;
@@ -206,7 +206,7 @@ struct Gen {
         case 8: fl.push_back("Transfer-Encoding: chunked;q=1"); break;
         case 9: fl.push_back("Transfer-Encoding:"); break;
         case 10: fl.push_back("Transfer-Encoding: ,chunked"); break;
-        default: if (avoid(K_HTAB)) { fl.push_back("Transfer-Encoding: chunked"); break; } fl.push_back("Transfer-Encoding:\tchunked"); break;
+        default: fl.push_back("Transfer-Encoding:\tchunked"); break;
       }
     } else {
       body = chunked_body(eol); fl.push_back("Transfer-Encoding: chunked"); fl.push_back("Content-Length: " + std::to_string(s.flag() ? body.size() : s.below(8))); if (s.flag()) std::swap(fl[0], fl[1]);
@@ -364,7 +364,7 @@ void differential(const char *point, const Obs &o, const Result &R, const std::v
     if (i == n) k = key_for_features(R.term_features, reqs[n], R.term_framing, 1);
     if (!k && n > 0) k = key_for_features(R.msgs[n - 1].features, reqs[n - 1], R.msgs[n - 1].framing, R.msgs[n - 1].cl);
     switch (R.term) {
-      case h9112c::T_REJECT: VERIF_FAIL((R.term_features & h9112c::C_CONNECT_OTHER) ? K_CONNECTBODY /* the framing fields of a refused CONNECT are not even looked at */ : key_for_reason(R.reason), "[%s] the response for request %zu must be treated as an unrecoverable error (%s) but request %zu completed with a response: %s", point, n, R.reason.c_str(), i, show(o[i]).c_str());
+      case h9112c::T_REJECT: VERIF_FAIL(key_for_reason(R.reason), "[%s] the response for request %zu must be treated as an unrecoverable error (%s) but request %zu completed with a response: %s", point, n, R.reason.c_str(), i, show(o[i]).c_str());
       case h9112c::T_INCOMPLETE: VERIF_FAIL(k ? k : "C24/delivered-incomplete", "[%s] the stream ends inside the response for request %zu (%s) but request %zu completed with a response: %s", point, n, R.reason.c_str(), i, show(o[i]).c_str());
       case h9112c::T_NOREUSE: if (key_for_reuse(R.msgs[n - 1])) k = key_for_reuse(R.msgs[n - 1]);
         VERIF_FAIL(k ? k : "C24/reused-after-close", "[%s] response %zu carried / answered the close connection option, so the connection must not serve another request (RFC 9112 9.6), but request %zu completed with a response taken from the bytes that followed: %s", point, n - 1, i, show(o[i]).c_str());
@@ -426,7 +426,7 @@ extern "C" int LLVMFuzzerTestOneInput(const uint8_t *data, size_t size) {
       size_t n = R->msgs.size();
       if (!hit && n < reqs.size() && R->term != h9112c::T_END && R->term != h9112c::T_NOREUSE) {
         const char *k = key_for_features(R->term_features, reqs[n], R->term_framing, 1);
-        if (!k && R->term == h9112c::T_REJECT) k = (R->term_features & h9112c::C_CONNECT_OTHER) ? K_CONNECTBODY : key_for_reason(R->reason);
+        if (!k && R->term == h9112c::T_REJECT) k = key_for_reason(R->reason);
         if (k && R->term_pos < stream.size() && verif_known(k)) { hit = k; at = R->term_pos; } }
     }
     if (!hit) break;
